@@ -85,7 +85,11 @@ Scatter(data, lens) ==
 \* the error of a lookup whose last component is missing: the host says ENOTDIR when the parent exists but is a regular
 \* file, follows a parent that is a symbolic link (not modelled), and says ENOENT otherwise
 \* (a link whose target is its own name can never be resolved: ELOOP)
-SelfLoop(s, q) == Exists(s, q) /\ s.fs[q].kind = "link" /\ s.fs[q].target = q
+\* (a link's target is looked up from the directory the link lies in: it names itself when the target is the link's own last component)
+LastSlash(q) == IF \E i \in 1..Len(q) : SubSeq(q, i, i) = "/"
+                THEN CHOOSE i \in 1..Len(q) : SubSeq(q, i, i) = "/" /\ \A j \in (i + 1)..Len(q) : SubSeq(q, j, j) # "/" ELSE 0
+BaseName(q) == SubSeq(q, LastSlash(q) + 1, Len(q))
+SelfLoop(s, q) == Exists(s, q) /\ s.fs[q].kind = "link" /\ s.fs[q].target = BaseName(q)
 \* k lies below directory p (paths are strings: p, then a slash, then more)
 Below(k, p) == Len(k) > Len(p) + 1 /\ SubSeq(k, 1, Len(p) + 1) = p \o "/"
 \* (the same holds when it is a directory further up the path that is a file or a link: the first thing on the way that is not a
